@@ -113,6 +113,7 @@ type Enc struct {
 	topContract *FuncContract
 	curContractFn string
 	sentinels []string
+	frameTargets map[string][]*modTarget
 }
 
 func newEnc(w *World, cs *Contracts, mods *ModAnalysis) *Enc {
